@@ -12,42 +12,47 @@ CHECKS = {
  "C01": dict(tech="symbolic execution of real code on a symbolic scalar + SMT (QF_NRA)", engines=[R],
              text="For every explored shape/frame and EVERY value of singular values, weights, observations, threshold: the matrix handed to the SVD is W*Phi, the reported coefficients equal the truncated closed form V_r S_r^-1 U_r^T W Y, satisfy the normal equations on the full-rank path, are minimum-norm and optimal in the retained subspace on every truncated path (sigma <= eps counts as zero), depend linearly on Y, and every divisor is non-zero on every path. Bounded model checking: all paths of the real set_params/build inside the shape bound.",
              note=REAL),
- "C02": dict(tech="symbolic execution of real code on a symbolic scalar + SMT (QF_NRA)", engines=[R],
+ "C02": dict(tech="symbolic execution of real code on a symbolic scalar + SMT (QF_NRA)", engines=[R, K],
              text="residuals() == column-stacked W*Y - (W*Phi)*C, weighted_data() == W*Y, best_fit() == Phi*C in the shape of the observations, params()/nonlinear_parameters() == the alpha last applied, for all values inside the shape bound and after one- and two-step update histories.", note=REAL),
- "C03": dict(tech="symbolic execution of real code on a symbolic scalar + SMT (QF_NRA)", engines=[R],
+ "C03": dict(tech="symbolic execution of real code on a symbolic scalar + SMT (QF_NRA)", engines=[R, K],
              text="On every full-rank path: each Jacobian block equals -(I-UU^T) W D_k c_s with U an orthonormal basis of range(W*Phi) (planted), is orthogonal to range(W*Phi); arbitrary derivative matrices D_k cover shared parameters. A failing derivative at any k gives None (concrete fact per path).", note=REAL + "; the gradient identity 2 J^T r = grad ||r||^2 follows from the Kaufman form and is not separately encoded"),
- "C06": dict(tech="relational symbolic execution (two real problems in one term arena) + SMT", engines=[R],
+ "C04": dict(tech="symbolic execution of the MIR (EUF + fault Booleans) + Kani on the real LM driver + symbolic execution on a symbolic scalar", engines=[M, K, R],
+             text="fit() returns Ok exactly when was_successful(report) for an ARBITRARY optimizer (minimize uninterpreted), and in both cases the payload is FitResult{into_sequential(final problem), report} field by field (MIR, all paths, both overflow profiles). Through the REAL levenberg-marquardt driver (Kani, thorough tier): a failed evaluation gives Err(User) carrying the problem, a failing derivative gives Err(User), zero residuals give Ok. Coherence of the final state (coefficients optimal for the reported alpha, residuals = W(Y - Phi C)) is C01/C02 applied to the optimizer's last set_params.",
+             note="NOT decided (trusted, invariants of the levenberg-marquardt crate's accept/reject loop): 'objective never larger than at the initial guess' and 'evaluations within the budget'. Native runs (supplementary) check objective = 0.5*||residuals||^2 on a few fits."),
+ "C08": dict(tech="Kani/CBMC over all IEEE-754 bit patterns with an SVD contract stub + symbolic execution of the MIR for integer panics", engines=[K, M],
+             text="For ALL f64 bit patterns of a 2x2 basis matrix and of the weights, build() never hands a non-finite matrix to the SVD (whose documented failure modes are a panic for M>=2 and non-termination for M>=3) and returns a problem without residuals instead; no overflow/index/unwrap panic is reachable in try_calculate, fit, fit_with_statistics, build for any 64-bit sizes (MIR, both overflow profiles); every p outside (0,1) is the only documented panic. Thorough: nothing downstream of an arbitrary SVD result panics (2x2x1, all f64).",
+             note="NOT decided: termination and panic-freedom inside nalgebra's SVD/inverse for finite input and inside the LM loop (its bound patience*(n+1) is read, not proved); shapes beyond 2x2 under Kani. A supplementary native grid (NaN/inf/extremes at every input position, watchdog) runs on 3x2 and 5x3."),
+ "C11": dict(tech="symbolic execution of both flavours on a symbolic scalar inside rayon pools + SMT; MIR comparison of the two impls", engines=[R, M, K],
+             text="Problems built by the parallel constructors report, at construction and after an update, residuals/coefficients/Jacobian that are proved equal (terms, all values) to the sequential problem's and to the specification, inside rayon pools of 1, 2, 3, 4, 16 threads; a failing derivative gives None in both; into_sequential preserves every field (Kani) and the MIR bodies of the two LeastSquaresProblem impls (set_params, params, residuals, all closures incl. the Jacobian column closure) are identical modulo the const generic.",
+             note=REAL + "; the schedule quantifier is NOT enumerated (rayon cannot be driven symbolically, Kani has no threads): schedule independence rests on each column being written by one pure closure (identical closure MIR) plus identical terms under the schedules that occurred"),
+ "C06": dict(tech="relational symbolic execution (two real problems in one term arena) + SMT", engines=[R, K],
              text="Weighted problem vs. pre-scaled unweighted problem: both hand the same matrix to the SVD and report identical coefficients, residuals, Jacobian; reduced chi^2, weighted residuals and covariance of the statistics coincide; weights(1..1) == no weights; a zero weight removes the sample (real SVD, M=1).", note=REAL + "; 'along the whole fit' follows because LM only sees residuals()/jacobian(); the LM iteration itself is not executed symbolically"),
- "C07": dict(tech="relational symbolic execution + SMT", engines=[R],
+ "C07": dict(tech="relational symbolic execution + SMT", engines=[R, K],
              text="S-column problem vs. S single-column problems (vector API): coefficient columns, residual blocks, Jacobian blocks identical; column permutation permutes them; dependent columns scale; 1-column MRHS == vector API.", note=REAL + "; not decided: the fitted alpha under permutation (LM iteration)"),
- "C09": dict(tech="symbolic execution with scripted model faults + SMT; facts per path", engines=[R],
+ "C09": dict(tech="symbolic execution with scripted model faults + SMT; facts per path", engines=[R, K, M],
              text="After a rejected set_params or a failing eval the problem exposes no residuals/coefficients/Jacobian; a failing derivative gives no Jacobian; after recovery the state equals a fresh problem's (terms proved equal).", note=REAL + "; fault positions: model.set_params, eval, each eval_partial_deriv, in build and in later updates; the LM loop's reaction (TerminationReason::User) is covered by Engine K once registered"),
- "C10": dict(tech="symbolic execution of update histories + SMT; poisoning allocator", engines=[R],
+ "C10": dict(tech="symbolic execution of update histories + SMT; poisoning allocator", engines=[R, K],
              text="After two-step histories (incl. a rejected / failing update in between) every reported element is proved equal to the fresh problem's; repeated queries return identical terms; every element read back is a computed term (fresh heap memory is poisoned with 0xA5 so an un-overwritten element is an invalid term id).", note=REAL + "; heap quantifier: poison pattern instead of all heap contents"),
- "C12": dict(tech="symbolic execution of try_calculate + SMT; concrete shape grid for the guard", engines=[R],
+ "C12": dict(tech="symbolic execution of try_calculate + SMT; concrete shape grid for the guard", engines=[R, M],
              text="weighted_residuals == W y - W Phi c, reduced_chi2*(N-M-P) == ||r||^2, standard error^2 == chi2 for all values; N<=M+P gives Err(Underdetermined) without panic in the overflow-checked profile; model errors give Err.", note=REAL + "; N,M,P on a concrete grid in this engine (symbolic 64-bit counts: Engine M once registered)"),
- "C13": dict(tech="symbolic execution of try_calculate + SMT (fraction-free)", engines=[R],
+ "C13": dict(tech="symbolic execution of try_calculate + SMT (fraction-free)", engines=[R, K],
              text="Cov*(H^T H) == sigma^2 I with H = W[Phi | D_k c] (ordering linear-then-nonlinear is implied), Cov symmetric, variance accessors == diagonal segments, corr_ij*sqrt(C_ii C_jj) == C_ij, for all values on the det != 0 path, (M+P) <= 4.", note=REAL + "; non-negativity of the diagonal and |corr| <= 1 are consequences not separately encoded"),
- "C14": dict(tech="symbolic execution of try_calculate + SMT", engines=[R],
+ "C14": dict(tech="symbolic execution of try_calculate + SMT", engines=[R, K],
              text="unscaled band sigma_i^2 == j_i^T Cov j_i with j_i a row of the UN-weighted [Phi | D_k c] for all values.", note=REAL + "; the Student-t quantile itself (distrs) and the data flow t((1+p)/2, dof)*sigma_i are Engine K's part once registered"),
  "C15": dict(tech="real builder executed on symbolic scalars; EUF obligations for accepted models; bounded enumeration of call sequences for acceptance", engines=[R],
              text="REDUCED SCOPE: acceptance is decided by hash sets over concrete strings, which no available symbolic engine carries (measured). 50+ call sequences with one or two known defects each (every error kind, sticky errors, any order of x/initial-guess) are run through the real builder: accepted iff valid, error kind among the defects present; accepted models are then decided symbolically as in C16.", note="acceptance part is an enumeration, not a solver verdict; names/arity clauses outside the enumerated sequences are not decided"),
- "C16": dict(tech="symbolic execution with uninterpreted basis functions + SMT (EUF)", engines=[R],
+ "C16": dict(tech="symbolic execution with uninterpreted basis functions + SMT (EUF)", engines=[R, K],
              text="For every enumerated program (all ordered subsets up to arity 3 of up to 3 (quick) / 4 (thorough) model parameters, every derivative order, invariant functions at rotating positions, arities 4..10 by rotation) and ALL parameter values and ALL basis functions: eval column j == f_j(x, params by name), derivative column == the supplied derivative or exactly 0, params round-trip.", note="programs enumerated (exhaustive within the stated bound), values and functions universally quantified; parametric in the scalar type"),
- "C17": dict(tech="symbolic execution with uninterpreted basis functions + SMT (EUF); facts per program", engines=[R],
+ "C17": dict(tech="symbolic execution with uninterpreted basis functions + SMT (EUF); facts per program", engines=[R, K],
              text="Wrong output lengths (N-1, N+1, 0) at function / invariant / derivative positions give UnexpectedFunctionOutput{N, actual}; index >= P gives DerivativeIndexOutOfBounds; wrong parameter counts give IncorrectParameterCount and leave params and all evaluations (terms) unchanged; shapes N x M.", note="programs enumerated; values universally quantified"),
- "C18": dict(tech="symbolic execution of the real builder + SMT", engines=[R],
+ "C18": dict(tech="symbolic execution of the real builder + SMT", engines=[R, M],
              text="After build(): params() == the model's parameters, residuals/coefficients present and correct, stored threshold == |eps| (or machine epsilon), for every order and repetition of the builder calls and all four constructors, all values.", note=REAL + "; the accept/reject decision table over symbolic sizes is Engine M's part once registered"),
 }
 NA = {
  "C05": "convergence of the Levenberg-Marquardt/VarPro iteration to a minimiser is a limit statement about an iterative floating-point search over transcendental model families: out of reach of bit-blasting (iterations x float width) and of exact real arithmetic alike; its local ingredients are decided under C01/C03",
  "C19": "a statement about relative frequencies over noise realisations: there is no single execution whose assertion a solver could decide; its algebraic ingredients are decided under C12-C14",
 }
-PENDING = {
- "C04": "not claimed yet: Engine M (MIR) / Engine K (Kani) checks for fit()'s Ok/Err mapping are being built",
- "C08": "not claimed yet: Engine K (Kani, IEEE floats with SVD contract stub) check is being built",
- "C11": "not claimed yet: parallel-vs-sequential check is being built",
-}
+PENDING = {}
 
 
 def main():
@@ -82,10 +87,12 @@ def main():
         },
         "engines": [
             {"name": "R", "path": "/verif/engine_r", "serves_properties": sorted(k for k, c in CHECKS.items() if R in c["engines"]), "kind_free_text": R},
+            {"name": "K", "path": "/verif/engine_k", "serves_properties": sorted(k for k, c in CHECKS.items() if K in c["engines"]), "kind_free_text": K},
+            {"name": "M", "path": "/verif/engine_m", "serves_properties": sorted(k for k, c in CHECKS.items() if M in c["engines"]), "kind_free_text": M},
         ],
         "checks": checks,
         "not_applicable": na,
-        "notes": "Genuine defects found and repaired in /repo (fix: commits 69fc015, f8c3afb) are recorded in /verif/known_findings.json. Scratch space: /var/tmp/verif-scratch (override with VERIF_SCRATCH).",
+        "notes": "Genuine defects found and repaired in /repo (fix: commits 69fc015, f8c3afb, d50c35b) are recorded in /verif/known_findings.json. Scratch space: /var/tmp/verif-scratch (override with VERIF_SCRATCH).",
     }
     json.dump(man, open(os.path.join(HERE, "MANIFEST.json"), "w"), indent=1)
     print("wrote MANIFEST.json with", len(checks), "checks;", len(na), "not applicable")
